@@ -79,11 +79,6 @@ PROTO_CLASSES = {
     "NodeProto": onnx.NodeProto, "TensorProto": onnx.TensorProto, "AttributeProto": onnx.AttributeProto,
     "ValueInfoProto": onnx.ValueInfoProto, "TypeProto": onnx.TypeProto,
 }
-GENERATORS = {
-    "ModelProto": gp.gen_model, "GraphProto": gp.gen_graph, "FunctionProto": gp.gen_function,
-    "NodeProto": gp.gen_node, "TensorProto": gp.gen_tensor, "AttributeProto": gp.gen_attribute,
-    "ValueInfoProto": gp.gen_value_info, "TypeProto": gp.gen_type,
-}
 KEY_FEATURES = (
     "attr_doc", "overloads", "nested_shape", "quant_annotation", "dim_denotation", "type_denotation",
     "ref_attrs", "device_config", "node_device_config", "tensor_meta", "lowbit", "func_value_info",
@@ -107,7 +102,7 @@ def plan(tier: str) -> dict:
     for v in range(3, 14):
         floors[f"ir_version:{v}"] = 20 if quick else 800
     return {
-        "cases": 56000 if quick else 1000000,
+        "cases": 64000 if quick else 1000000,
         "shards": 16,
         "budget_s": 32 if quick else 440,
         "floors": floors,
@@ -436,7 +431,7 @@ def _run(ctx, tmpdir: str) -> None:
         else:
             kind = _draw_kind(rng)
             gen = gp.ProtoGen(rng)
-            proto = _build(gen, kind, rng)
+            proto = gen.build(kind)
             used, carriers = gen.used, gen.carriers
             origin = f"generated ir_version={gen.ir_version}"
             r = rng.random()
@@ -484,38 +479,6 @@ def _run(ctx, tmpdir: str) -> None:
                 {"kind": kind, "api": api, "proto_b64": _b64(witness), "original_proto_b64": original_b64,
                  "case": case, "origin": origin, "features": sorted(used), "expect": sig},
             )
-
-
-def _build(gen: gp.ProtoGen, kind: str, rng):
-    if kind == "ModelProto":
-        return gen.model()
-    if kind == "GraphProto":
-        return gen.graph(outer=[gen.name("outer") for _ in range(rng.randint(0, 2))])
-    if kind == "FunctionProto":
-        return gen.function(overload="ov1" if gen.on("overloads", 0.6) else "")
-    if kind == "NodeProto":
-        if gen.on("node_device_config", 1.0):
-            gen._configs = ["mesh2", "tp4"]
-        return gen.node()
-    if kind == "TensorProto":
-        return gen.tensor(named=rng.random() < 0.8)
-    if kind == "AttributeProto":
-        if gen.ir_version >= 8 and rng.random() < 0.15:
-            a = onnx.AttributeProto()
-            a.name = "attr"
-            a.ref_attr_name = rng.choice(("axis", "mode", "body"))
-            a.type = rng.choice(list(gp.ATTR_KINDS.values()))
-            if gen.on("attr_doc", 0.6):
-                a.doc_string = gen.text()
-            gen.used.add("ref_attrs")
-            gen.carriers.add("attribute")
-            return a
-        return gen.attribute(visible=[gen.name("outer") for _ in range(2)])
-    if kind == "ValueInfoProto":
-        return gen.value_info()
-    if kind == "TypeProto":
-        return gen.type()
-    raise AssertionError(kind)
 
 
 def _indent(text: str) -> str:
